@@ -93,7 +93,8 @@ def write_evidence(res, tier, seed, level, wall, n_viol, n_known, checker_cmd, e
         "trusted_base": [
             "rustc 1.97.0-nightly: HIR + typeck results and MIR (mir-opt-level=0) are a faithful image of /repo's source",
             "hand-typed reference tables under /verif/spec (each cites its production / section)",
-            "effect summaries for std / nom leaf functions listed in engine/py/summaries.py",
+            "meaning of the std / nom leaf functions the engines interpret (nom combinators in e2.py, Vec / Iterator methods in e5.py, staleidx.py, guards.py)",
+            "reasoned exceptions: engine/py/reasons_e1.py and the *_REASONS / *_OK tables in engine/py/props (one named site each)",
         ],
         "functions_analysed": res.functions_analysed,
         "rule_instances": res.rules,
